@@ -56,6 +56,12 @@ fn case(inp: &[u64]) -> Result<(), String> {
       chkr!("SelectZeroAdaptConst(SelectAdaptConst(Rank9))", SelectZeroAdaptConst::<_, _>::new(SelectAdaptConst::<_, _>::new(Rank9::new(b.clone()))));
       chkr!("SelectSmall(RankSmall<1,9>)", SelectSmall::<1, 9, _>::new(RankSmall::<1, 9, _>::new(b.clone())));
       chkr!("SelectZeroSmall(SelectSmall(RankSmall<3,13>))", SelectZeroSmall::<3, 13, _>::new(SelectSmall::<3, 13, _>::new(RankSmall::<3, 13, _>::new(b.clone())))); }
+    // re-wrapping with `map` over an identical backend keeps every answer (parameters other than the defaults included)
+    chk1!("SelectAdaptConst<5,1>.map(id)", unsafe { SelectAdaptConst::<_, _, 5, 1>::new(nb()).map(|x| x) });
+    chk0!("SelectZeroAdaptConst<5,1>.map(id)", unsafe { SelectZeroAdaptConst::<_, _, 5, 1>::new(nb()).map(|x| x) });
+    chk1!("SelectAdapt(2).map(id)", unsafe { SelectAdapt::new(nb(), 2).map(|x| x) });
+    chk0!("SelectZeroAdapt(2).map(id)", unsafe { SelectZeroAdapt::new(nb(), 2).map(|x| x) });
+    chk1!("SelectSmall<2,9>.map(id)", unsafe { SelectSmall::<2, 9, _>::new(RankSmall::<2, 9, _>::new(b.clone())).map(|x| x) });
     // nesting: ones over zeros over rank
     { let s = SelectAdapt::new(SelectZeroAdapt::new(nb(), 3), 3);
       for r in probe(&ones) { if s.select(r) != Some(ones[r]) { return Err(format!("nested: select({})", r)); } }
